@@ -132,7 +132,13 @@ KINDS = {
                        ([['e', 'f'], 'e,f'], ['e,f']),
                        ([['g', 'h']], ['g,h', 'g , h']),
                        ([['i', 'j'], 'i,j'], ['i,j']),
-                       ([['k', 'l']], ['k,l'])),
+                       ([['k', 'l']], ['k,l']),
+                       # overlapping lists: an input can match one value of a tuple partly and another fully
+                       ([['a', 'c'], 'a,c'], ['a,c', 'a, c'], 'ov'),
+                       ([['a', 'd']], ['a,d'], 'ov'),
+                       ([['b', 'c'], 'b,c'], ['b,c'], 'ov'),
+                       ([['e', 'b']], ['e,b', 'e ,b'], 'ov'),
+                       ([['c', 'e']], ['c,e'], 'ov')),
         'outsiders': ['y,z', 'q,r'], 'raising': ['a,,b', ''],
         'partial': ['a,z', 'a,d', 'b,a', 'd,c', 'a,b,c', 'a', 'c,b', 'z,f'],
     },
@@ -140,7 +146,7 @@ KINDS = {
 
 CREDITS = [1, 0.5, 0.5, 0, 0.25, 1.0, 0.75, 0.0, 0.1, 0.3]
 MSGS = [None, None, '', 'ok', 'no', 'good', 'nice', 'well done', 'très bien', 'x', '\U0001d6d1!', 'partial credit here',
-        'hint', 'almost']
+        'hint', 'almost', 'ok  ', 'yes', ' ']
 WRONG_MSGS = ['', 'try again', 'no', 'nope!', 'good', 'wrong ✗']
 OKS = [None, None, None, None, None, None, 'computed', True, False, 'partial']
 
@@ -216,6 +222,21 @@ def gen_case(rng, kind, tier):
             if rng.random() < 0.7:
                 alts[j]['msg'] = rng.choice(MSGS[3:])
     inputs = []
+    if kind == 'SingleList' and rng.random() < 0.6:
+        # a tuple whose earlier value the input matches only partly and whose later value it matches fully
+        U = K['universe']
+        items = lambda k: {x.strip() for x in U[k]['alts'][0]}
+        pairs = [(p, q) for p in range(nU) for q in range(nU) if p != q and len(items(p) & items(q)) == 1]
+        p, q = rng.choice(pairs)
+        ks = [p, q] + ([rng.choice(range(nU))] if rng.random() < 0.3 else [])
+        a = {'form': rng.choice(['dict', 'dict', 'bare']), 'tuple': True, 'classes': ks,
+             'values': [copy.deepcopy(rng.choice(alt_spellings(kind, oi, k))) for k in ks],
+             'credit': None, 'msg': None, 'ok': None}
+        if a['form'] == 'dict':
+            a['credit'] = rng.choice([None, 1, 1, 0.5, 0.75])
+            a['msg'] = rng.choice(MSGS[3:])
+        alts[rng.randrange(len(alts))] = a
+        inputs.append({'text': rng.choice(input_spellings(kind, oi, q)), 'cls': q})
     used = sorted({k for a in alts for k in a['classes']})
     for k in rng.sample(used, min(len(used), 3)):
         inputs.append({'text': rng.choice(input_spellings(kind, oi, k)), 'cls': k})
@@ -255,6 +276,18 @@ def corpus_cases():
     out.append({'kind': 'String', 'oi': 0, 'wrong_msg': 'try again', 'inputs': ins, 'single': True, 'alts': [d(0, 0, None)]})
     out.append({'kind': 'String', 'oi': 0, 'wrong_msg': 'try again', 'inputs': ins, 'single': True,
                 'alts': [d([0, 1, 2], form='bare')]})
+    # partial-credit grader, one alternative written as a tuple: the input matches the first value partly, the second fully
+    sl = [{'text': 'a, c', 'cls': 6}, {'text': 'a,b', 'cls': 0}, {'text': 'c,a', 'cls': 6}, {'text': 'a,z', 'cls': 'partial'},
+          {'text': 'y,z', 'cls': None}]
+    for oi in (0, 1):
+        out.append({'kind': 'SingleList', 'oi': oi, 'wrong_msg': 'try again', 'inputs': sl, 'single': True, 'alts': [
+            {'form': 'dict', 'tuple': True, 'classes': [0, 6], 'values': [['a', 'b'], ['a', 'c']], 'credit': None,
+             'msg': 'well done', 'ok': None}]})
+    out.append({'kind': 'SingleList', 'oi': 0, 'wrong_msg': '', 'inputs': sl, 'single': False, 'alts': [
+        {'form': 'dict', 'tuple': True, 'classes': [8, 0, 6], 'values': ['b,c', ['a', 'b'], 'a,c'], 'credit': 0.5,
+         'msg': 'half', 'ok': None},
+        {'form': 'bare', 'tuple': True, 'classes': [7, 6], 'values': [['a', 'd'], ['a', 'c']], 'credit': None, 'msg': None,
+         'ok': None}]})
     return out
 
 
@@ -351,6 +384,10 @@ def direct_earned(case, inp):
         if k is not None:
             tags.add(U[k]['tag'])
         if tags != {'v2'}:
+            return None
+    if kind == 'SingleList':
+        U = KINDS[kind]['universe']
+        if any(U[c]['tag'] == 'ov' for a in case['alts'] for c in a['classes']) or (k is not None and U[k]['tag'] == 'ov'):
             return None
     if kind == 'SingleList' and KINDS[kind]['opts'][case['oi']].get('ordered'):
         # listed order matters: only spellings in the class's own order match fully
